@@ -241,6 +241,11 @@ type c16ReqConn struct {
 	localPeer  peer.ID
 	remotePeer peer.ID
 	remoteAddr ma.Multiaddr
+	limited    bool
+}
+
+func (c *c16ReqConn) Stat() network.ConnStats {
+	return network.ConnStats{Stats: network.Stats{Direction: network.DirInbound, Limited: c.limited}}
 }
 
 func (c *c16ReqConn) LocalPeer() peer.ID { return c.localPeer }
